@@ -196,6 +196,7 @@ def gen_specs(chk):
     add("exhaustive_pairs_w1", exhaustive_pairs(rng, 1, 1.0))
     add("exhaustive_pairs_w2", exhaustive_pairs(rng, 2, 1.0))
     add("exhaustive_pairs_w3", exhaustive_pairs(rng, 3, 1.0 if thorough else 0.03))
+    add("styled_blank_runs", c06_gen.blank_run_specs(rng))
     n_small, n_big, n_tr = (12000, 6000, 1500) if thorough else (1500, 500, 150)
     add("random_small", (c06_gen.rand_spec(rng, 7, 4, rng.randint(1, 8)) for _ in range(n_small)))
     add("random_narrow_only", (c06_gen.rand_spec(rng, 7, 4, rng.randint(1, 8), wide_ok=False) for _ in range(n_small // 3)))
@@ -286,6 +287,14 @@ def main(tier):
             chk.violation("oracle", "implementation raised %r while rendering %r" % (e, describe_spec(spec)),
                           {"clause": "raise", "exc": type(e).__name__}, {"spec": jsonable_spec(spec)})
             continue
+        # hypothesis Hpv of the theorems on the real tables: attrs that do not count as
+        # "has style" must give a pen that is invisible on a blank
+        for ci, (stab, atab) in enumerate(case[1]):
+            for aid, pen, flags in atab:
+                if not any(flags) and c06_oracle.pvis(pens.strs[pen]) != c06_oracle.pvis("\x1b[0m"):
+                    chk.violation("tie", "theorem hypothesis Hpv fails on the real tables: attrs without colour/bgcolor/underline/"
+                                  "strike/blink/reverse produce the pen %r (cfg %r)" % (pens.strs[pen], spec["cfgs"][ci]),
+                                  {"kind": "Hpv"}, {"pen": pens.strs[pen], "cfg": list(spec["cfgs"][ci])}, no_input=True)
         cases.append(case)
         impl_results.append(res)
         kinds.append(kind)
